@@ -1315,14 +1315,18 @@ def run_whole(ctx, spec):
                 stores=stores, n_delivered=n_delivered, meta_ok=meta_ok, summaries=summaries, run_error=run_error)
 
 
-def run_cases(ctx, replay):
+def run_cases(ctx, replay, corpus_only=False):
     rng = ctx.rng
     if replay and replay.get("kind") == "run":
+        if corpus_only:
+            return
         specs = [replay["spec"]]
     elif replay:
         return
+    elif corpus_only:  # formerly failing whole runs first, so that they are among the reported violations
+        specs = corpus_specs("run")
     else:
-        specs = corpus_specs("run") + [gen_run_spec(rng, i) for i in range(ctx.n(60, 800))]
+        specs = [gen_run_spec(rng, i) for i in range(ctx.n(60, 800))]
     terms, meta = [], []
     for i, spec in enumerate(specs):
         case = dict(kind="run", spec=spec)
@@ -1372,7 +1376,7 @@ def run_cases(ctx, replay):
                             n_rows=len(obs["rows"]), n_handed=len(obs["handed"]),
                             best_config=[(m, repr(b)) for m, b in obs["tq"]],
                             experiment_best=[(m, repr(c)) for m, c in obs["eqs"]]))
-    report_model_mismatches(ctx, "run", terms, meta)
+    report_model_mismatches(ctx, "runc" if corpus_only else "run", terms, meta)
 
 
 # --------------------------------------------------------------------------
@@ -1392,6 +1396,7 @@ def run(ctx, replay=None):
         experiments_module(ctx)
         if replay and replay.get("kind") == "import":
             return
+        run_cases(ctx, replay, corpus_only=True)
         seq_cases(ctx, replay)
         run_cases(ctx, replay)
     finally:
